@@ -104,7 +104,9 @@ def probe_same_element_swap(inp: Dict[str, Any]) -> Dict[str, Any]:
 def probe_md_alone_vs_batch(inp: Dict[str, Any]) -> Dict[str, Any]:
     """trajectory of molecule k independent of its batch mates (real engine, few steps)"""
     sc_a = dict(engine=inp.get("engine", "basic"), stub=False, mols=[inp["names"][inp["target"]]], molid=[0],
-                cad=dict(data=1, coordinates=1, velocities=0, forces=1, xyz=0, print=0, ckpt=0), steps=inp.get("steps", 4), temp=0.0, seed=1, k=inp.get("k", 4),
+                cad=dict(data=1, coordinates=1, velocities=0, forces=1, xyz=0, print=0, ckpt=0), steps=inp.get("steps", 4), temp=float(inp.get("temp", 0.0)), seed=1, k=inp.get("k", 4),
+                remove_com=(tuple(inp["remove_com"]) if inp.get("remove_com") else None), preset_velocities=inp.get("preset_velocities"),
+                run_kwargs=({"scale_vel": tuple(inp["scale_vel"])} if inp.get("scale_vel") else {}),
                 charges=[esh.CHARGE.get(inp["names"][inp["target"]], 0)], T_el=inp.get("T_el", 1500), dt=inp.get("dt", 0.5))
     sc_b = dict(sc_a, mols=list(inp["names"]), molid=[inp["target"]], charges=[esh.CHARGE.get(n, 0) for n in inp["names"]])
     mdh.DEFAULT_MOLS.update({k: (v[0], np.asarray(v[1]).tolist()) for k, v in esh.GEOMS.items() if k not in mdh.DEFAULT_MOLS})
@@ -180,6 +182,12 @@ def gen_cases(ctx: Ctx):
         cases.append(("same_element_swap", {"name": nm, "i": i, "j": j, "method": meth}))
     cases.append(("md_alone_vs_batch", {"names": ["h2", "h2o"], "target": 0, "engine": "basic", "steps": 3}))
     cases.append(("md_alone_vs_batch", {"names": ["ch4", "oh-"], "target": 1, "engine": "ksa", "steps": 3, "k": 4}))
+    # finite temperature + angular-momentum removal with a DIATOMIC batch mate: the count of degrees of freedom (reported temperature, initial velocity
+    # rescale) of a molecule must not depend on who else is in the batch (seed C05_J: 6 -> 5 removed degrees of freedom decided batch-globally).
+    # The target is the first and largest member, so that its preset initial velocities are the same numbers alone and in the batch; velocities are preset
+    # and rescaled to 300 K every step (a diatomic given package-drawn velocities is rejected under angular removal, alone and in a batch alike).
+    cases.append(("md_alone_vs_batch", {"names": ["ch4", "h2"], "target": 0, "engine": "basic", "steps": 3, "temp": 300.0, "remove_com": ["angular", 1],
+                                        "preset_velocities": 7, "scale_vel": [1, 300.0]}))
     # fractional occupations (high electronic temperature) on the padded member of a mixed batch: the response kernel must ignore padding orbitals
     cases.append(("md_alone_vs_batch", {"names": ["ch2o", "h2o"], "target": 1, "engine": "ksa", "steps": 6, "k": 4, "T_el": 20000, "tol": 1e-9}))
     if ctx.thorough:
